@@ -156,18 +156,21 @@ EventuallyShipped == <>(last = "ok" /\ pc = "idle") \/ <>[]Wedged
 CasesFile == IF "VERIF_CASES" \in DOMAIN IOEnv THEN IOEnv.VERIF_CASES ELSE "cases.ndjson"
 BlockOpts == { [kind |-> k, pre |-> p] : k \in CaseKinds, p \in CasePre }
 BlockSeqs == UNION { [1..n -> BlockOpts] : n \in 1..CaseN }
-CrashSeqs(n) == UNION { [1..k -> 1..(3 * n)] : k \in 0..CaseCrashes }
+(* crash points: one per run; a second crash point only for one-block cases and early in the run (keeps the case   *)
+(* count in budget)                                                                                                 *)
+CrashSeqs(n) == {<<>>} \cup { <<k>> : k \in 1..(3 * n) }
+                \cup (IF n = 1 /\ CaseCrashes >= 2 THEN { <<k, k2>> : k \in 1..3, k2 \in 1..3 } ELSE {})
+BaseCases == UNION { { [blocks |-> bs, uc |-> u, ooo |-> o, crashes |-> cr, late |-> 0, uc2 |-> u] :
+                         u \in BOOLEAN, o \in BOOLEAN, cr \in (IF CaseCrashes = 0 THEN {<<>>} ELSE CrashSeqs(Len(bs))) } : bs \in BlockSeqs }
 (* late = the block (index) that appears in the directory only after the others were synced (0 = none); uc2 = the   *)
-(* upload-compacted setting of the shipper started after that (a restart may switch it on)                            *)
-CaseSet == UNION { { [blocks |-> bs, uc |-> u, ooo |-> o, crashes |-> cr, late |-> lt, uc2 |-> u2] :
-                       u \in BOOLEAN, o \in BOOLEAN, cr \in CrashSeqs(Len(bs)), lt \in 0..Len(bs), u2 \in BOOLEAN } : bs \in BlockSeqs }
-(* a second crash point only for one-block cases, and early in the run (keeps the case count in budget) *)
-CaseOK(c) == /\ \A k \in DOMAIN c.crashes : k = 1 \/ (c.crashes[k] <= 3 /\ Len(c.blocks) = 1)
-             /\ (c.uc => c.uc2)
-             (* histories with a late block / a switched setting: without crashes and without out-of-order uploads *)
-             /\ ((c.late # 0 \/ c.uc2 # c.uc) => (c.crashes = <<>> /\ ~c.ooo /\ \A k \in DOMAIN c.blocks : c.blocks[k].pre = "absent"))
-             /\ (c.late # 0 => Len(c.blocks) > 1)
-ASSUME ndJsonSerialize(CasesFile, SetToSeq({ c \in CaseSet : CaseOK(c) }))
+(* upload-compacted setting of the shipper started after that (a restart may switch it on).  Such histories come     *)
+(* without crashes, without out-of-order uploads, from an empty bucket.                                               *)
+AbsentSeqs == { bs \in BlockSeqs : \A k \in DOMAIN bs : bs[k].pre = "absent" }
+LateCases == UNION { { [blocks |-> bs, uc |-> u, ooo |-> FALSE, crashes |-> <<>>, late |-> lt, uc2 |-> u2] :
+                         u \in BOOLEAN, u2 \in BOOLEAN, lt \in 0..(IF Len(bs) > 1 THEN Len(bs) ELSE 0) } : bs \in AbsentSeqs }
+CaseSet == BaseCases \cup { c \in LateCases : (c.uc => c.uc2) /\ (c.late # 0 \/ c.uc2 # c.uc) }
+EmitCases == "VERIF_CASES" \in DOMAIN IOEnv      \* the second configuration of a tier does not emit cases
+ASSUME EmitCases => ndJsonSerialize(CasesFile, SetToSeq(CaseSet))
 
 (* phase 2: scenarios for the real receive.MultiTSDB (file <cases>.mt): tenants[i] = blocks of tenant i; ops over    *)
 (* sync:k (SyncAllTenants with a bucket outage from the k-th mutating call), prune, append (newer samples + head      *)
@@ -179,5 +182,5 @@ MtShapes == { <<"prune", s, "prune", "sync:0", "prune">> : s \in {"sync:1", "syn
 MtAll == UNION { [1..n -> MtOps] : n \in 1..MtLen }
 MtCaseSet == { [mt |-> TRUE, tenants |-> tn, ooo |-> o, ops |-> ops] :
                  tn \in MtTenants, o \in {FALSE}, ops \in (IF MtLen = 0 THEN MtShapes ELSE MtShapes \cup MtAll) }
-ASSUME ndJsonSerialize(CasesFile \o ".mt", SetToSeq(MtCaseSet))
+ASSUME EmitCases => ndJsonSerialize(CasesFile \o ".mt", SetToSeq(MtCaseSet))
 =============================================================================
